@@ -17,7 +17,7 @@ RULE = ("one case = one fit() run (state type, N rows, pos/neg batch sizes equal
         "k in 0..3, lr in {1e-3,0.1,1,7.5}, 1..4 epochs, with/without StepLR). Every optimizer step of the run is "
         "monitored. Non-trivial: >= 2 batches per epoch and >= 2 epochs; distinct by sha256(config, initial "
         "parameters, data).")
-REQUIRED = ["optimizer_steps_monitored", "named_gradients_compared", "updates_checked", "scheduler_steps_seen",
+REQUIRED = ["second_runs_reusing_argument_dicts", "optimizer_steps_monitored", "named_gradients_compared", "updates_checked", "scheduler_steps_seen",
             "runs_neg_ne_pos", "runs_with_bases", "runs_N_not_multiple"]
 ANCHOR_FILES = ["qucumber/nn_states/neural_state.py", "qucumber/utils/gradients_utils.py"]
 REACH = [
@@ -61,7 +61,7 @@ def config(case):
     cfg = {"kind": kind, "nv": nv, "nh": int(rng.integers(1, 4)), "na": int(rng.integers(1, 3)), "N": N, "pos": pos,
            "neg": neg, "k": int(rng.integers(0, 4)), "lr": float(rng.choice([1e-3, 0.1, 1.0, 7.5])),
            "epochs": int(rng.integers(1, 5)), "sched": bool(rng.random() < 0.5), "step_size": int(rng.integers(1, 3)),
-           "gamma": float(rng.choice([0.5, 0.1])), "momentum0": bool(rng.random() < 0.3)}
+           "gamma": float(rng.choice([0.5, 0.1])), "momentum0": bool(rng.random() < 0.5)}
     if kind == "mixed" and cfg["lr"] > 1:
         cfg["lr"] = 1.0  # large steps push mixed states out of the well-conditioned range quickly
     return rng, cfg
@@ -86,6 +86,23 @@ def run_case(case, ctx):
         bases = gen.random_bases(rng, cfg["N"], nv, p_z=0.4)
         bases[int(rng.integers(0, cfg["N"]))] = "Z"  # at least one reference-basis row
     data = torch.tensor(rows, dtype=torch.double)
+    shared = {}
+    if cfg["sched"]:
+        shared["scheduler_args"] = {"step_size": cfg["step_size"], "gamma": cfg["gamma"]}
+    if cfg["momentum0"]:
+        shared["optimizer_args"] = {"momentum": 0}
+    keep_args = {k: dict(v) for k, v in shared.items()}
+    one_run(case, ctx, cfg, st, kind, nv, rows, bases, data, shared, am, ph, "first")
+    if case["rep"] % 2 == 0:
+        # history: a second fit on the same state re-using the caller's optimizer_args / scheduler_args objects
+        cfg2 = dict(cfg, lr=cfg["lr"] * 0.25 if cfg["lr"] > 1e-3 else 0.5, epochs=int(1 + case["rep"] % 3))
+        one_run(case, ctx, cfg2, st, kind, nv, rows, bases, data, shared, None, None, "second")
+        ctx.count("second_runs_reusing_argument_dicts")
+        if {k: dict(v) for k, v in shared.items()} != keep_args:
+            ctx.count("caller_argument_dicts_modified")
+
+
+def one_run(case, ctx, cfg, st, kind, nv, rows, bases, data, shared, am, ph, label):
     log = trainrec.Log()
     undo = trainrec.instrument_state(st, log)
     rec = trainrec.recorder_callback(log, digest_params=False)
@@ -94,10 +111,10 @@ def run_case(case, ctx):
         kw["input_bases"] = bases
     if cfg["sched"]:
         kw["scheduler"] = trainrec.make_recording_scheduler(log)
-        kw["scheduler_args"] = {"step_size": cfg["step_size"], "gamma": cfg["gamma"]}
+        kw["scheduler_args"] = shared["scheduler_args"]
     if cfg["momentum0"]:
-        kw["optimizer_args"] = {"momentum": 0}
-    tags = {"state": kind}
+        kw["optimizer_args"] = shared["optimizer_args"]
+    tags = {"state": kind, "run": label}
     try:
         ctx.lib("fit", st.fit, data, epochs=cfg["epochs"], pos_batch_size=cfg["pos"], neg_batch_size=cfg["neg"],
                 k=cfg["k"], lr=cfg["lr"], callbacks=[rec], optimizer=trainrec.make_recording_sgd(log, st), tags=tags, **kw)
@@ -186,7 +203,7 @@ def run_case(case, ctx):
         ctx.count("runs_with_bases")
     if cfg["N"] % cfg["pos"]:
         ctx.count("runs_N_not_multiple")
-    if nb >= 2 and cfg["epochs"] >= 2:
+    if nb >= 2 and cfg["epochs"] >= 2 and am is not None:
         ctx.mark_nontrivial(gen.model_digest(kind, am, ph, extra=[cfg, rows]))
     ctx.seen("N_pos_neg_k", (cfg["N"], cfg["pos"], cfg["neg"], cfg["k"]))
     ctx.seen("kinds", kind)
